@@ -14,6 +14,8 @@ import XotModel.Driver.Scope
 import XotModel.Driver.Ffixed
 import XotModel.Driver.Html5
 import XotModel.Driver.Fmap
+import XotModel.Driver.Parse
+import XotModel.Driver.Fclone
 
 open XotModel.Driver
 
@@ -28,6 +30,7 @@ def dispatch (st : DState) (line : String) : DState × String :=
   | "ser" :: rest => (st, (handleSer st rest).getD "bad-request")
   | "scope" :: rest => (st, (handleScope st rest).getD "bad-request")
   | "html" :: rest => (st, (handleHtml st rest).getD "bad-request")
+  | "build" :: rest => (st, (handleBuild st rest).getD "bad-request")
   | _ => (st, "bad-request")
 
 structure MState where
@@ -38,7 +41,7 @@ def dispatchAll (st : MState) (line : String) : MState × String :=
   match words line with
   | "forest" :: "fixed" :: rest => (match handleFfixed st.forest rest with | some (fs, resp) => ({ st with forest := fs }, resp) | none => (st, "bad-request"))
   | "forest" :: rest =>
-    (match handleForest st.forest rest with
+    (match (handleFclone st.d.env st.forest rest).orElse (fun _ => handleForest st.forest rest) with
      | some (fs, resp) => ({ st with forest := fs }, resp)
      | none => (st, "bad-request"))
   | "fmap" :: rest =>
